@@ -307,7 +307,17 @@ LowDensity ==
   /\ cnt' = BumpAll(cnt, {"low_density_series", "lowdens:" \o E.family})
 
 Init == l = 1 /\ cnt = NoCount
-Next == /\ (Thermo \/ Skip \/ IgCp \/ LowDensity)
+\* The Joback & Reid group sum: c_p polynomial coefficients = molecule offsets (-37.93, 0.21, -3.91e-4, 2.06e-7, 0) + sum over groups of count x group coefficient
+JobackOffsets == <<"-37.93", "0.21", "-3.91e-4", "2.06e-7", "0">>
+JobackSegments ==
+  /\ Ev("JobackSegments")
+  /\ \A q \in 1..5 :
+       LET terms == [k \in 1..Len(E.segments) |-> FMul(FOfInt(E.segments[k].n), E.segments[k].c[q])]
+           expect == FAdd(JobackOffsets[q], FSum(terms))
+       IN Chk("C10.joback_group_sum", <<E.case, q, E.record[q], expect, l>>, E.record[q], expect, "1e-13", FAdd(FAbs(JobackOffsets[q]), FSumAbs(terms)), "0")
+  /\ cnt' = BumpAll(cnt, {"joback_group_sums"} \cup (IF \E k \in 1..Len(E.segments) : E.segments[k].n > 1 /\ ~FEq(E.segments[k].c[5], "0") THEN {"joback_group_sums_with_repeated_e"} ELSE {}))
+
+Next == /\ (Thermo \/ Skip \/ IgCp \/ LowDensity \/ JobackSegments)
         /\ (l' > NRec => PrintT("STATS " \o ToJson(cnt')))
 TraceSpec == Init /\ [][Next]_vars
 ================================================================================
